@@ -218,6 +218,7 @@ ApplyWhat(w, vs, env, k0) ==
                      e0 == ("%self" :> Len(s0) + 1) @@ ("%T" :> Len(s0) + 2)
                      b == BindAll(e0, s1, d.ps, vs)
                  IN [st EXCEPT !.s = b.s, !.e = b.env, !.c = Ev(d.body), !.k = Push(k0, [f |-> "call", env |-> env])]
+    [] w.w = "tuple" -> [st EXCEPT !.c = Val([t |-> "tup", vs |-> vs]), !.k = k0]     \* several values at once: (e1, .., en)
     [] w.w = "throw" -> [st EXCEPT !.c = [k |-> "thr", exn |-> w.exn, vs |-> vs], !.k = k0]
     [] w.w = "for" ->
          [st EXCEPT !.c = Val(VUnit),
@@ -318,6 +319,12 @@ EvSeq == IsEv /\ X.e = "seq" /\ Go(SeqStart(X.es, st.e))
 
 EvAsg == IsEv /\ X.e = "asg" /\
   Go([st EXCEPT !.c = Ev(X.v), !.k = Push(st.k, [f |-> "asg", x |-> X.x, env |-> st.e])])
+(* (x1, .., xn) := v where v delivers n values (a tuple expression or a call of a function that  *)
+(* returns several values): all values exist before the first variable changes, so             *)
+(* (a, b) := (b, a) exchanges a and b                                                          *)
+EvTuple == IsEv /\ X.e = "tuple" /\ GoAny(StartArgs([w |-> "tuple"], X.args))
+EvMAsg == IsEv /\ X.e = "masg" /\
+  Go([st EXCEPT !.c = Ev(X.v), !.k = Push(st.k, [f |-> "masg", xs |-> X.xs, env |-> st.e])])
 EvLet == IsEv /\ X.e = "let" /\
   Go([st EXCEPT !.c = Ev(X.v), !.k = Push(st.k, [f |-> "let", x |-> X.x, body |-> X.body, env |-> st.e])])
 
@@ -402,6 +409,13 @@ RetExitNot == IsVal /\ HasF /\ F.f = "exit" /\ ~st.c.v.b /\
 RetAsg == IsVal /\ HasF /\ F.f = "asg" /\
   Go(IF F.x \in DOMAIN F.env
      THEN [st EXCEPT !.s = [st.s EXCEPT ![F.env[F.x]] = st.c.v], !.k = Pop(st.k)]
+     ELSE [st EXCEPT !.status = "stuck"])
+RetMAsg == IsVal /\ HasF /\ F.f = "masg" /\
+  Go(IF st.c.v.t = "tup" /\ Len(st.c.v.vs) = Len(F.xs) /\ (\A i \in 1..Len(F.xs) : F.xs[i] \in DOMAIN F.env)
+     THEN [st EXCEPT !.s = [l \in DOMAIN st.s |->
+                             LET m == {i \in 1..Len(F.xs) : F.env[F.xs[i]] = l}
+                             IN IF m = {} THEN st.s[l] ELSE st.c.v.vs[CHOOSE i \in m : \A j \in m : j <= i]],
+                   !.c = Val(VUnit), !.k = Pop(st.k)]
      ELSE [st EXCEPT !.status = "stuck"])
 RetLet == IsVal /\ HasF /\ F.f = "let" /\
   Go([st EXCEPT !.s = Alloc(st.s, st.c.v), !.e = Bind(F.env, F.x, Len(st.s) + 1), !.c = Ev(F.body), !.k = Pop(st.k)])
@@ -510,7 +524,7 @@ Init == /\ pid \in 1..Len(Progs)
 Step == \/ EvLit \/ EvBool \/ EvStr \/ EvUnit \/ EvVar \/ EvMac \/ EvPrim \/ EvCall \/ EvCallV \/ EvPrint
         \/ EvList \/ EvCons \/ EvListOp \/ EvNewArr \/ EvARef \/ EvASet \/ EvALen \/ EvMkRec \/ EvRGet \/ EvRSet
         \/ EvMkUn \/ EvUIs \/ EvUGet \/ EvDCall \/ EvThrow \/ EvIf \/ EvAnd \/ EvOr \/ EvSeq \/ EvAsg \/ EvLet \/ EvLam \/ EvGen
-        \/ EvWhile \/ EvFor \/ EvForIn \/ EvBreak \/ EvIter \/ EvRet \/ EvYield \/ EvTry \/ EvError \/ EvAssert \/ RetAssert
+        \/ EvWhile \/ EvFor \/ EvForIn \/ EvBreak \/ EvIter \/ EvRet \/ EvYield \/ EvTry \/ EvError \/ EvAssert \/ RetAssert \/ EvTuple \/ EvMAsg \/ RetMAsg
         \/ RetArgsNext \/ RetArgsApply \/ RetIf \/ RetAnd \/ RetOr \/ RetSeq \/ RetExitTaken \/ RetExitNot
         \/ RetAsg \/ RetLet \/ RetWhileCond \/ RetWhileBody \/ RetForStep \/ RetForInList \/ RetForInGen
         \/ RetGenEnd \/ RetYieldK \/ YieldUnwind \/ YieldDeliver \/ RetCall \/ RetRetK \/ RetUnwind \/ RetArrive
